@@ -278,7 +278,8 @@ fn gen_ops(r: &mut Rng, universe: u32, len: usize, set: bool) -> Vec<Op> {
             }
             10 => Op::Clear,
             11 => {
-                let n = 1 + r.below(8) as usize;
+                // small batches, and now and then a large one with repeated keys (drawn with replacement)
+                let n = if r.chance(1, 3) { 12 + r.below(40) as usize } else { 1 + r.below(8) as usize };
                 Op::Extend((0..n).map(|_| key(r)).collect())
             }
             12 => Op::IndexMutWrite(key(r)),
@@ -1019,6 +1020,13 @@ impl World for C17World {
             let mut ks: Vec<u32> = (0..universe).collect();
             r.shuffle(&mut ks);
             ks.truncate(n as usize);
+            if r.chance(1, 3) {
+                // repeated keys inside the first batch
+                for _ in 0..1 + n / 3 {
+                    let k = ks[r.below(ks.len() as u64) as usize];
+                    ks.push(k);
+                }
+            }
             match r.below(3) {
                 0 => ks.sort_by_key(|k| rank[*k as usize]),
                 1 => ks.sort_by_key(|k| std::cmp::Reverse(rank[*k as usize])),
